@@ -1,15 +1,16 @@
 #!/bin/bash
-# usage: try_patch.sh <patch.diff> <PROP> [seed]  -- applies the patch in a scratch worktree of /repo (never /repo itself,
-# background runs use it), runs the quick check against it with VERIF_REPO, removes nothing but reverts the worktree.
+# usage: [WT=/tmp/wt-try] try_patch.sh <patch.diff> <PROP> [seed]  -- applies the patch in a scratch worktree of /repo (never
+# /repo itself, background runs use it), runs the quick check against it with VERIF_REPO, then reverts the worktree.
 set -u
-P=$1; PROP=$2; SEED=${3:-0}
-WT=/tmp/wt-try
+P=$(readlink -f "$1"); PROP=$2; SEED=${3:-0}
+WT=${WT:-/tmp/wt-try}
+LOG=/tmp/try_$(basename $(dirname "$P"))_$PROP.log
 if [ ! -d $WT ]; then git -C /repo worktree add -q --detach $WT HEAD || exit 2; fi
 cd $WT && git checkout -q -- . && git checkout -q --detach $(git -C /repo rev-parse HEAD) || exit 2
 git apply "$P" || { echo "patch does not apply"; exit 2; }
 cd /verif
-VERIF_REPO=$WT VERIF_NO_EVIDENCE=1 timeout 1800 ./check $PROP --tier quick --seed $SEED > /tmp/try_$PROP.log 2>&1
+VERIF_REPO=$WT VERIF_NO_EVIDENCE=1 timeout 1800 ./check $PROP --tier quick --seed $SEED > $LOG 2>&1
 RC=$?
 git -C $WT checkout -q -- .
-grep -E "^VIOLATION|^violation|HARNESS|KNOWN" /tmp/try_$PROP.log | cut -c1-260
+grep -E "^violation|HARNESS|KNOWN" $LOG | cut -c1-260
 echo "exit=$RC"
